@@ -491,6 +491,85 @@ def run_limits(pid, tier, t0):
     log("[%s] %s: %d boundary cases (%d refused saves), trace %s by TLC, %.0fs" % (pid, tier, len(events), len(beyond), "accepted" if accepted else "REJECTED", time.time() - t0))
     return 1 if nviol else 0
 
+# ------------------------------------------------------------------ C19: build matrix
+def run_builds(pid, tier, t0):
+    import subprocess, concurrent.futures, hashlib
+    configs = [(v, sh) for v in ("O0", "O2", "O3") for sh in (False, True)]
+    with concurrent.futures.ThreadPoolExecutor(max_workers=6) as ex:
+        bins = list(ex.map(lambda c_: vlib.build(c_[0], shared=c_[1]), configs))
+    ez = report_replay.ez = bins[configs.index(("O2", True))]
+    work = vlib.scratch("c19")
+    # corpus 1: specification transitions (object construction, save/load, bit-pattern files), with the spec's expected states and bytes
+    edge_files = []
+    plan = [("MC_IO.tla", "MC_IO.cfg", io_consts("quick"), "io"), ("MC_Format.tla", "MC_Format.cfg", {"Variant": '"patterns"'}, "patterns")]
+    if tier != "quick":
+        plan += [("MC_Format.tla", "MC_Format.cfg", {"Variant": '"layout"'}, "layout"), ("MC_Params.tla", "MC_Params.cfg", {"MaxVals": 2, "Deep": "FALSE"}, "params"),
+                 ("MC_Lookup.tla", "MC_Lookup.cfg", {"NPts": 2, "MaxFrames": 1}, "lookup")]
+    states = transitions = 0
+    for mod, cfg, consts, tag in plan:
+        p = os.path.join(work, "edges.%s" % tag)
+        s = vlib.dump_edges(mod, cfg, consts, p)
+        states += s["distinct"]; transitions += s["generated"] - 1
+        edge_files.append((tag, p))
+    # corpus 2: damaged files and printing (exception classes and output text): no expected values, all builds must agree byte for byte
+    seed_evs, _ = vlib.run_ops(ez, [dict(o, post=0) for o in build_ops(2, 1, 2, 2, [_userparam("USR", "CUBE", 2, [1, -2, 3, -4, 5, -6], dim=(2, 1, 3), desc="cube")])] + [{"op": "Save", "path": "s.c3d", "bytes": 1, "post": 0}])
+    seed = seed_evs[-1]["bytes"]
+    rnd = random.Random(vlib.seed())
+    ops = [{"op": "New", "o": 1}, {"op": "Print", "o": 1}]
+    for i in range(400 if tier == "quick" else 4000):
+        b = list(seed)
+        if i % 4 == 0: b = b[:rnd.randrange(0, len(b))]
+        else:
+            for _ in range(rnd.choice((1, 1, 2))): b[rnd.randrange(0, min(len(b), 1100))] = rnd.choice((0, 1, 127, 128, 255, rnd.randrange(256)))
+        ops += [{"op": "PutFile", "path": "m.c3d", "bytes": b}, {"op": "Load", "o": 2, "path": "m.c3d"}, {"op": "Print", "o": 2, "post": 0}]
+    for vf in ("Vicon", "Qualisys", "Optotrak"):
+        ops += [{"op": "Load", "o": 3, "path": "/repo/test/c3dFiles/%s.c3d" % vf, "post": 0}, {"op": "Print", "o": 3, "post": 0},
+                {"op": "Save", "o": 3, "path": "v.c3d", "post": 0}, {"op": "Load", "o": 4, "path": "v.c3d", "post": 0}, {"op": "Print", "o": 4, "post": 0},
+                {"op": "Get", "o": 4, "q": "frame", "f": 0, "post": 0}, {"op": "Get", "o": 4, "q": "group", "g": 0, "post": 0}]
+    script = os.path.join(work, "corpus.ndjson"); open(script, "w").write("\n".join(json.dumps(o) for o in ops) + "\n")
+    viol = {}
+    digests = {}
+    totals = 0
+    def one(i):
+        v, sh = configs[i]; name = "%s/%s" % (v, "shared" if sh else "static")
+        res = {"name": name, "fails": [], "cases": 0}
+        for tag, p in edge_files:
+            cases, fails = vlib.replay_file(bins[i], p, nproc=3)
+            res["cases"] += cases; res["fails"] += [(tag, f) for f in fails]
+        d = vlib.scratch("c19run")
+        r = subprocess.run("%s run --dir %s < %s | sha256sum" % (bins[i], d, script), shell=True, stdout=subprocess.PIPE, text=True)
+        res["digest"] = r.stdout.split()[0]
+        return res
+    with concurrent.futures.ThreadPoolExecutor(max_workers=6) as ex:
+        results = list(ex.map(one, range(len(configs))))
+    nviol = 0
+    ref = [r for r in results if r["name"] == "O2/shared"][0]
+    for r in results:
+        totals += r["cases"]
+        for tag, f in r["fails"][:3]:
+            d = f["diffs"][0]
+            key = "%s:%s:%s:%s" % (r["name"], tag, f["op"].get("op"), norm_path(d.get("path", "")))
+            if key in viol: continue
+            viol[key] = 1
+            p = vlib.save_replay(pid, key, {"property": pid, "kind": "replay", "build": r["name"], "path": f["path"], "op": f["op"], "diffs": f["diffs"]})
+            log("VIOLATION property=%s replay=%s" % (pid, p)); nviol += 1
+            log("  build %s does not follow the specification on slice %s: %s expected %s got %s" % (r["name"], tag, d.get("path"), json.dumps(d.get("exp"))[:80], json.dumps(d.get("act"))[:80]))
+        if r["digest"] != ref["digest"]:
+            # find the first differing event for the report
+            p = vlib.save_replay(pid, "digest:" + r["name"], {"property": pid, "kind": "corpus", "build": r["name"], "reference": "O2/shared", "digest": r["digest"], "reference_digest": ref["digest"]})
+            log("VIOLATION property=%s replay=%s" % (pid, p)); nviol += 1
+            log("  build %s produced a different event stream than O2/shared on the damaged-file / print / vendor-file corpus" % r["name"])
+    cov = {"states": states, "transitions": transitions, "traces_validated_against_impl": totals,
+           "samples": [{"build": r["name"], "replayed": r["cases"], "mismatches": len(r["fails"]), "corpus_digest": r["digest"][:16]} for r in results],
+           "builds": [r["name"] for r in results], "corpus_ops": len(ops),
+           "rule": "the transitions of the TLA+ slices (with the specification's expected states, outcome classes and saved bytes) are replayed in each of the six builds "
+                   "(-O0/-O2/-O3 x static/shared): each build must follow the specification; a second corpus (damaged files, print(), vendor files save/load) has no "
+                   "expected values and must give byte-identical event streams in all builds"}
+    cov["known_findings_observed"] = known_findings(pid, ez)
+    vlib.write_evidence(pid, tier, "model_checking", cov, time.time() - t0, nviol, ["one compiler (g++ 12); the event stream contains values as bit patterns, exception classes, saved bytes and a hash of print() output"])
+    log("[%s] %s: 6 builds x %d spec transitions replayed, corpus digests %s, %.0fs" % (pid, tier, transitions, "identical" if len({r["digest"] for r in results}) == 1 else "DIFFER", time.time() - t0))
+    return 1 if nviol else 0
+
 SAN_ENV = {"ASAN_OPTIONS": "detect_leaks=0:alloc_dealloc_mismatch=1:abort_on_error=1:detect_stack_use_after_return=0",
            "UBSAN_OPTIONS": "print_stacktrace=1:halt_on_error=1"}
 def run_memsafe(pid, tier, t0):
@@ -543,6 +622,7 @@ def run_format(pid, tier, t0):
         "rates in generated files come from the exact-rate table; the two multi-word reserved header fields are zero"])
 
 CHECKS = {
+    "C19": run_builds,
     "C17": run_limits,
     "C16": run_corrupt,
     "C02": run_format, "C12": run_format,
